@@ -806,6 +806,116 @@ pub fn run_c14(cfg: &Config) -> i32 {
 		total.merge(rep);
 	}
 
+	// (f) wide containers (1..130 members, past any small-size fast path) against copies that differ in
+	//     exactly one position (key, value or item), for every position
+	{
+		let rep = parallel(cfg.threads, 16, |i| {
+			let mut rep = Report::new();
+			let sizes: Vec<usize> = if cfg.san { vec![3, 33, 65] } else { (1..=130usize).filter(|n| n % 16 == i).collect() };
+			for n in sizes {
+				let base_o: Vec<(String, RVal)> = (0..n).map(|j| (format!("k{}", j % 97), RVal::Num((j % 10).to_string()))).collect();
+				let base_a: Vec<RVal> = (0..n).map(|j| RVal::Str(format!("s{}", j % 7))).collect();
+				let (ro, ra) = (RVal::Obj(base_o.clone()), RVal::Arr(base_a.clone()));
+				let (vo, va) = (from_rval(&ro), from_rval(&ra));
+				rep.max("widest_compared_container", n as u64);
+				for pos in 0..n {
+					let mut e = base_o.clone();
+					e[pos].1 = RVal::Num("77".into());
+					let mut k = base_o.clone();
+					k[pos].0 = "other".into();
+					let mut it = base_a.clone();
+					it[pos] = RVal::Null;
+					for (x, vx, y) in [(&ro, &vo, RVal::Obj(e)), (&ro, &vo, RVal::Obj(k)), (&ra, &va, RVal::Arr(it))] {
+						let vy = if pos % 2 == 0 { from_rval(&y) } else { from_rval_push(&y) };
+						let desc = || json!({"sub": "cmp-pair", "a": doc_of(x), "b": doc_of(&y)});
+						c14_pair(&mut rep, "wide-containers-differing-in-one-position", vx, &vy, false, &desc);
+						rep.distinct_by_construction(1);
+					}
+				}
+				let desc = || json!({"sub": "cmp-pair", "a": doc_of(&ro), "b": doc_of(&ro)});
+				c14_pair(&mut rep, "wide-containers-differing-in-one-position", &vo, &from_rval_push(&ro), true, &desc);
+			}
+			rep
+		});
+		total.merge(rep);
+	}
+
+	// (g) clone_from: whatever the target held before, afterwards it equals the source (==, cmp, hash) and
+	//     the source is untouched; all ordered pairs of a small family with duplicate keys, then random pairs
+	{
+		let keys = ["a", "b"];
+		let mut fam: Vec<Vec<(String, RVal)>> = vec![vec![]];
+		let mut layer: Vec<Vec<(String, RVal)>> = vec![vec![]];
+		for _ in 0..(if thorough { 5 } else { 4 }) {
+			let mut next = Vec::new();
+			for e in &layer {
+				for k in keys {
+					for v in ["0", "1"] {
+						let mut x = e.clone();
+						x.push((k.to_string(), RVal::Num(v.to_string())));
+						next.push(x);
+					}
+				}
+			}
+			fam.extend(next.iter().cloned());
+			layer = next;
+		}
+		let fam: Vec<RVal> = fam.into_iter().map(RVal::Obj).collect();
+		let fam = std::sync::Arc::new(fam);
+		let nf = fam.len();
+		total.count("objects_in_clone_from_family", nf as u64);
+		let random_pairs = cfg.budget(60_000, 2_000_000);
+		let rep = parallel(cfg.threads, shards, |i| {
+			let mut rep = Report::new();
+			let mut rng = Rng::new(seed).fork(0xc1f + i as u64);
+			let mut one = |rep: &mut Report, rt: &RVal, rs: &RVal, nest: bool| {
+				let (mut target, source) = (from_rval(rt), from_rval_push(rs));
+				if nest {
+					// through the containers' own clone_from (Vec<Value>, entries)
+					target = Value::Array(vec![target, Value::Null]);
+				}
+				let source = if nest { Value::Array(vec![source, Value::Null]) } else { source };
+				let before = source.clone();
+				if guard(std::panic::AssertUnwindSafe(|| target.clone_from(&source))).is_err() {
+					rep.violation("C14:panic", format!("clone_from panicked (target {}, source {})", doc_of(rt), doc_of(rs)), json!({"sub": "clone-from", "a": doc_of(rt), "b": doc_of(rs)}));
+					return;
+				}
+				let desc = || json!({"sub": "clone-from", "a": doc_of(rt), "b": doc_of(rs)});
+				c14_pair(rep, "clone_from(target,source)-vs-source", &target, &source, true, &desc);
+				c14_pair(rep, "source-after-clone_from", &source, &before, true, &desc);
+				if let (Value::Object(t), Value::Object(sv)) = (&mut target, &source) {
+					// Object::clone_from directly, from a different starting point
+					let mut t2 = json_syntax::Object::new();
+					t2.push("zz".into(), Value::Null);
+					t2.clone_from(sv);
+					if t2 != *sv || *t != *sv {
+						rep.violation("C14:clone-differs", format!("Object::clone_from leaves {:?}, source {}", t2.entries().len(), doc_of(rs)), desc());
+					}
+				}
+			};
+			let mut k = i;
+			while k < nf * nf {
+				let (a, b) = (k / nf, k % nf);
+				one(&mut rep, &fam[a], &fam[b], k % 5 == 0);
+				rep.distinct_by_construction(1);
+				k += shards;
+			}
+			for _ in 0..(random_pairs / shards as u64).max(1) {
+				let p = ValueParams {
+					max_depth: 1 + rng.below(4),
+					max_width: 1 + rng.below(6),
+					..Default::default()
+				};
+				let ra = gen::gen_value(&mut rng, &p, 0);
+				let rb = if rng.chance(1, 2) { mutate_once(&mut rng, &ra) } else { gen::gen_value(&mut rng, &p, 0) };
+				rep.distinct_hash(fnv(format!("{}<-{}", doc_of(&ra), doc_of(&rb)).as_bytes()));
+				one(&mut rep, &ra, &rb, false);
+			}
+			rep
+		});
+		total.merge(rep);
+	}
+
 	// (c) random triples of related values
 	let n = cfg.budget(500_000, 10_000_000);
 	let rep = parallel(cfg.threads, shards, |i| {
@@ -976,7 +1086,7 @@ pub fn run_c14(cfg: &Config) -> i32 {
 		cfg,
 		EvidenceMeta {
 			id: "C14",
-			rule: "cases: (a) generated pairs (a value and an identical copy / an unrelated value / a near-copy differing in one leaf, key, position, multiplicity) and clones; (b) every pair and every triple of the objects with at most 2 (thorough 3) entries over keys {a,b,c} x values {0,1,2} (mixed lengths sharing key prefixes); (c) random triples of related values; (d) objects with identical entry lists built through 10 different histories (from_vec, push, grow-then-shrink, push_front, parse, clone of a grown object, interleaved junk removed by position, in-place mutation, short keys stored on the heap, keys truncated from longer ones), all pairs; (e) random operation histories (the C06 alphabet) in which after every operation the object is compared (==, cmp, hash, also wrapped in Value) with a fresh object built from the model's entries; laws: == iff content equal (decided on the reference trees), == iff cmp Equal iff partial_cmp Some(Equal), symmetric ==, cmp antisymmetric, transitive, equal => equal hashes under two hashers; the hook counts how many history pairs really had different index internals; distinct by hash / construction",
+			rule: "cases: (a) generated pairs (a value and an identical copy / an unrelated value / a near-copy differing in one leaf, key, position, multiplicity) and clones; (b) every pair and every triple of the objects with at most 2 (thorough 3) entries over keys {a,b,c} x values {0,1,2} (mixed lengths sharing key prefixes); (c) random triples of related values; (d) objects with identical entry lists built through 10 different histories (from_vec, push, grow-then-shrink, push_front, parse, clone of a grown object, interleaved junk removed by position, in-place mutation, short keys stored on the heap, keys truncated from longer ones), all pairs; (e) random operation histories (the C06 alphabet) in which after every operation the object is compared (==, cmp, hash, also wrapped in Value) with a fresh object built from the model's entries; (f) containers of 1..130 members against copies differing in exactly one key, value or item, for every position; (g) clone_from over all ordered pairs of the objects with at most 4 (thorough 5) entries over keys {a,b} x values {0,1} and over random pairs: the target must then equal the source under every law and the source be unchanged; laws: == iff content equal (decided on the reference trees), == iff cmp Equal iff partial_cmp Some(Equal), symmetric ==, cmp antisymmetric, transitive, equal => equal hashes under two hashers; the hook counts how many history pairs really had different index internals; distinct by hash / construction",
 			exhaustive: false,
 			assumptions: vec!["content equality = equality of the reference trees (numbers by spelling)".into()],
 			extra: json!({}),
